@@ -450,6 +450,289 @@ theorem gl_reduce_none_fwd {A : Arith V} {s : Bytes} (z : V) (base : Stack V)
       obtain ⟨e, v', h1, h2, h3⟩ := ih (.bin ot x lhs) w red (by rw [evalA_bin_of hx hlhs]; exact hb) h
       exact ⟨e, v', h1, h2, Unwind.cons (Doc.stopEnd hlex) h3⟩
 
+
+/-! ### `parseValue`, one level unfolded -/
+
+/-- the literal branch of `parseValue` for a first character `c` that is a decimal digit -/
+def litParse (A : Arith V) (c : Nat) (rest : Bytes) : Except Err (Nat × Bytes) :=
+  if c = 48 ∧ isHex rest = true then parseNum A 16 0 (rest.drop 1) else parseNum A 10 0 (c :: rest)
+
+theorem gl_isDigit {c : Nat} : isDigit c = true ↔ 48 ≤ c ∧ c ≤ 57 := by simp [isDigit]
+
+theorem gl_digitVal_dec {c : Nat} (h : isDigit c = true) : digitVal c < 10 := by
+  have h' := gl_isDigit.1 h
+  simp only [digitVal]
+  rw [if_pos h']; omega
+
+theorem gl_parseNum_first {A : Arith V} {base c n : Nat} {cs r : Bytes} (hd : digitVal c < base)
+    (h : parseNum A base 0 (c :: cs) = .ok (n, r)) : A.litOk n = true := by
+  simp only [parseNum, if_pos hd] at h
+  split at h
+  · rename_i hok
+    rcases (gl_parseNum_lex A base cs _ n r h).2 with h2 | h2
+    · rw [h2]; exact hok
+    · exact h2
+  · cases h
+
+theorem gl_isHex_drop {rest : Bytes} (h : isHex rest = true) : ∃ hd tl, rest.drop 1 = hd :: tl ∧ digitVal hd < 16 := by
+  rcases rest with _ | ⟨x, _ | ⟨hd, tl⟩⟩
+  · simp [isHex] at h
+  · simp [isHex] at h
+  · simp only [isHex, Bool.and_eq_true, decide_eq_true_eq] at h
+    exact ⟨hd, tl, rfl, h.2⟩
+
+theorem gl_lit_fwd {A : Arith V} {c n : Nat} {rest r : Bytes} (hc : isDigit c = true)
+    (h : litParse A c rest = .ok (n, r)) : lexNum (c :: rest) = some (n, r) ∧ A.litOk n = true := by
+  unfold litParse at h
+  unfold lexNum
+  simp only
+  split at h
+  · rename_i hx
+    rw [if_pos hx]
+    obtain ⟨hd, tl, e1, e2⟩ := gl_isHex_drop hx.2
+    rw [e1] at h ⊢
+    exact ⟨by rw [(gl_parseNum_lex A 16 _ 0 n r h).1], gl_parseNum_first e2 h⟩
+  · rename_i hx
+    rw [if_neg hx, if_pos hc]
+    exact ⟨by rw [(gl_parseNum_lex A 10 _ 0 n r h).1], gl_parseNum_first (gl_digitVal_dec hc) h⟩
+
+theorem gl_lit_bwd {A : Arith V} (hm : LitMono A) {c n : Nat} {rest r : Bytes}
+    (h : lexNum (c :: rest) = some (n, r)) (hok : A.litOk n = true) :
+    isDigit c = true ∧ litParse A c rest = .ok (n, r) := by
+  unfold lexNum at h
+  simp only at h
+  unfold litParse
+  split at h
+  · rename_i hx
+    rw [if_pos hx]
+    simp only [Option.some.injEq] at h
+    refine ⟨?_, gl_lex_parseNum hm 16 (by omega) _ 0 n r h hok⟩
+    rw [hx.1]; rfl
+  · rename_i hx
+    rw [if_neg hx]
+    split at h
+    · rename_i hd
+      simp only [Option.some.injEq] at h
+      exact ⟨hd, gl_lex_parseNum hm 10 (by omega) _ 0 n r h hok⟩
+    · cases h
+
+theorem gl_pv_digit (A : Arith V) (f : Nat) (st : Stack V) {s : Bytes} {c : Nat} {rest : Bytes}
+    (hs : eatSpaces s = c :: rest) (hc : isDigit c = true) :
+    parseValue A (f + 1) st s = match litParse A c rest with
+      | .error e => .error e
+      | .ok (n, r') => .ok (A.lit n, st, r') := by
+  have hc' := gl_isDigit.1 hc
+  rw [parseValue, hs]
+  simp only [litParse]
+  by_cases h48 : c = 48
+  · subst h48
+    simp only [if_true, true_and]
+    by_cases hx : isHex rest = true
+    · simp only [hx, if_true]
+      rfl
+    · have hx' : isHex rest = false := by simpa using hx
+      simp only [hx', Bool.false_eq_true, if_false]
+      rfl
+  · have hd : 49 ≤ c ∧ c ≤ 57 := by omega
+    simp only [h48, if_false, hd, and_self, if_true, false_and]
+    rfl
+
+theorem gl_pv_paren (A : Arith V) (f : Nat) (st : Stack V) {s rest : Bytes} (hs : eatSpaces s = 40 :: rest) :
+    parseValue A (f + 1) st s = match parseExpr A f st rest with
+      | .error e => .error e
+      | .ok (v, st', r') =>
+        match eatSpaces r' with
+        | 41 :: r'' => .ok (v, st', r'')
+        | _ => .error .syntax := by
+  rw [parseValue, hs]
+  simp
+  rfl
+
+theorem gl_pv_not (A : Arith V) (f : Nat) (st : Stack V) {s rest : Bytes} (hs : eatSpaces s = 126 :: rest) :
+    parseValue A (f + 1) st s = match parseValue A f st rest with
+      | .error e => .error e
+      | .ok (v, st', r') => .ok (A.not v, st', r') := by
+  rw [parseValue, hs]
+  simp
+  rfl
+
+theorem gl_pv_pos (A : Arith V) (f : Nat) (st : Stack V) {s rest : Bytes} (hs : eatSpaces s = 43 :: rest) :
+    parseValue A (f + 1) st s = parseValue A f st rest := by
+  rw [parseValue, hs]
+  simp
+
+theorem gl_pv_neg (A : Arith V) (f : Nat) (st : Stack V) {s rest : Bytes} (hs : eatSpaces s = 45 :: rest) :
+    parseValue A (f + 1) st s = match parseValue A f st rest with
+      | .error e => .error e
+      | .ok (v, st', r') =>
+        match A.neg v with
+        | .error e => .error e
+        | .ok v' => .ok (v', st', r') := by
+  rw [parseValue, hs]
+  simp
+  rfl
+
+theorem gl_pv_other (A : Arith V) (f : Nat) (st : Stack V) {s : Bytes} {c : Nat} {rest : Bytes}
+    (hs : eatSpaces s = c :: rest) (hc : isDigit c = false) (h40 : c ≠ 40) (h126 : c ≠ 126) (h43 : c ≠ 43) (h45 : c ≠ 45) :
+    parseValue A (f + 1) st s = .error .syntax := by
+  have hc' : ¬ (48 ≤ c ∧ c ≤ 57) := by
+    intro h; rw [gl_isDigit.2 h] at hc; cases hc
+  rw [parseValue, hs]
+  have h48 : c ≠ 48 := by omega
+  have hd : ¬ (49 ≤ c ∧ c ≤ 57) := by omega
+  simp only [h48, if_false, hd, h40, h126, h43, h45]
+
+theorem gl_pv_nil (A : Arith V) (f : Nat) (st : Stack V) {s : Bytes} (hs : eatSpaces s = []) :
+    parseValue A (f + 1) st s = .error .syntax := by
+  rw [parseValue, hs]
+
+theorem gl_loop_unfold (A : Arith V) (f : Nat) (v z : V) (ms base : Stack V) (s : Bytes) :
+    exprLoop A (f + 1) v (ms ++ (Oper.null, z) :: base) s =
+      match lexOp (eatSpaces s) with
+      | .bad => .error .syntax
+      | .none =>
+        (match reduce A Oper.null v (ms ++ (Oper.null, z) :: base) with
+         | .error e => .error e
+         | .ok (.done v' st') => .ok (v', st', eatSpaces s)
+         | .ok (.cont v' st') =>
+           match parseValue A f ((Oper.null, v') :: st') (eatSpaces s) with
+           | .error e => .error e
+           | .ok (v2, st2, r2) => exprLoop A f v2 st2 r2)
+      | .op o p l r =>
+        (match reduce A ⟨some o, p, l⟩ v (ms ++ (Oper.null, z) :: base) with
+         | .error e => .error e
+         | .ok (.done v' st') => .ok (v', st', r)
+         | .ok (.cont v' st') =>
+           match parseValue A f ((⟨some o, p, l⟩, v') :: st') r with
+           | .error e => .error e
+           | .ok (v2, st2, r2) => exprLoop A f v2 st2 r2) := by
+  have hne : (ms ++ (Oper.null, z) :: base).isEmpty = false := by cases ms <;> simp
+  rw [exprLoop, parseOp_lex]
+  simp only [hne, Bool.false_eq_true, if_false]
+  cases lexOp (eatSpaces s) <;> rfl
+
+
+theorem gl_unwind_notbad {es : List (Oper × Expr)} {lhs e : Expr} {s r : Bytes} (h : Unwind es lhs s e r) :
+    lexOp (eatSpaces s) ≠ .bad := by
+  intro hb
+  cases h with
+  | nil hd =>
+    cases hd with
+    | stopEnd h0 => rw [hb] at h0; cases h0
+    | stopLow h0 _ => rw [hb] at h0; cases h0
+    | step h0 _ _ _ _ => rw [hb] at h0; cases h0
+  | cons hd _ =>
+    cases hd with
+    | stopEnd h0 => rw [hb] at h0; cases h0
+    | stopLow h0 _ => rw [hb] at h0; cases h0
+    | step h0 _ _ _ _ => rw [hb] at h0; cases h0
+
+/-! ### spec → machine -/
+
+/-- COMPLETENESS of the shift/reduce loop: whatever the documented grammar derives and `evalA` evaluates, the loop
+    computes, with the fuel that `calcWith` provides; the stack is left as it was found -/
+theorem gl_parse_bwd {A : Arith V} (hm : LitMono A) : ∀ fuel : Nat,
+    (∀ (st : Stack V) (s : Bytes) (e : Expr) (r : Bytes) (v : V), 2 * s.length + 1 ≤ fuel →
+      Doc .prim s e r → evalA A e = .ok v → parseValue A fuel st s = .ok (v, st, r)) ∧
+    (∀ (st : Stack V) (s : Bytes) (a : Expr) (r1 : Bytes) (e : Expr) (r0 : Bytes) (v : V), 2 * s.length + 2 ≤ fuel →
+      Doc .prim s a r1 → Doc (.rest 0 a) r1 e r0 → evalA A e = .ok v →
+      parseExpr A fuel st s = .ok (v, st, eatSpaces r0)) ∧
+    (∀ (es : List (Oper × Expr)) (ms : Stack V) (z : V) (base : Stack V) (lhs : Expr) (v : V) (s : Bytes)
+      (e : Expr) (r0 : Bytes) (v' : V), 2 * s.length + 2 ≤ fuel → StackEval A es ms → evalA A lhs = .ok v →
+      Unwind es lhs s e r0 → evalA A e = .ok v' →
+      exprLoop A fuel v (ms ++ (Oper.null, z) :: base) s = .ok (v', base, eatSpaces r0)) := by
+  intro fuel
+  induction fuel with
+  | zero =>
+    refine ⟨?_, ?_, ?_⟩
+    · intro st s e r v h; omega
+    · intro st s a r1 e r0 v h; omega
+    · intro es ms z base lhs v s e r0 v' h; omega
+  | succ f ih =>
+    obtain ⟨ihV, ihE, ihL⟩ := ih
+    refine ⟨?_, ?_, ?_⟩
+    · -- parseValue
+      intro st s e r v hf hD hev
+      have hsl := eatSpaces_length s
+      cases hD with
+      | @num _ n _ hn =>
+        cases hs : eatSpaces s with
+        | nil => rw [hs] at hn; cases hn
+        | cons c rest =>
+          rw [hs] at hn
+          simp only [evalA] at hev
+          split at hev
+          · rename_i hok
+            cases hev
+            obtain ⟨hc, hl⟩ := gl_lit_bwd hm hn hok
+            rw [gl_pv_digit A f st hs hc, hl]
+          · cases hev
+      | @paren _ s1 r1 r2 _ a _ h0 hp hr h3 =>
+        rw [gl_pv_paren A f st h0]
+        rw [h0] at hsl
+        simp only [List.length_cons] at hsl
+        rw [ihE st s1 a r1 e r2 v (by omega) hp hr hev]
+        simp only
+        rw [gl_eatSpaces_idem, h3]
+        rfl
+      | @pos _ s1 _ _ h0 hp =>
+        rw [gl_pv_pos A f st h0]
+        rw [h0] at hsl
+        simp only [List.length_cons] at hsl
+        exact ihV st s1 e r v (by omega) hp hev
+      | @neg _ s1 _ e1 h0 hp =>
+        rw [gl_pv_neg A f st h0]
+        rw [h0] at hsl
+        simp only [List.length_cons] at hsl
+        simp only [evalA] at hev
+        cases h1 : evalA A e1 with
+        | error x => rw [h1] at hev; cases hev
+        | ok v1 =>
+          rw [h1] at hev
+          simp only at hev
+          rw [ihV st s1 e1 r v1 (by omega) hp h1]
+          simp only [hev]
+      | @not _ s1 _ e1 h0 hp =>
+        rw [gl_pv_not A f st h0]
+        rw [h0] at hsl
+        simp only [List.length_cons] at hsl
+        simp only [evalA] at hev
+        cases h1 : evalA A e1 with
+        | error x => rw [h1] at hev; cases hev
+        | ok v1 =>
+          rw [h1] at hev
+          simp only [Except.ok.injEq] at hev
+          rw [ihV st s1 e1 r v1 (by omega) hp h1]
+          simp only [hev]
+    · -- parseExpr
+      intro st s a r1 e r0 v hf hp hr hev
+      obtain ⟨va, hva⟩ := gl_rest_sub (A := A) hr _ _ rfl v hev
+      have hlen := gl_prim_len hp
+      rw [parseExpr, ihV _ s a r1 va (by omega) hp hva]
+      simp only
+      have := ihL [] [] (A.lit 0) st a va r1 e r0 v (by omega) StackEval.nil hva (Unwind.nil hr) hev
+      simpa using this
+    · -- exprLoop
+      intro es ms z base lhs v s e r0 v' hf hst hlhs hU hev
+      have hsl := eatSpaces_length s
+      rw [gl_loop_unfold]
+      cases hlex : lexOp (eatSpaces s) with
+      | bad => exact absurd hlex (gl_unwind_notbad hU)
+      | none =>
+        obtain ⟨h1, h2⟩ := gl_reduce_none_bwd z base hlex hst lhs v e r0 v' hlhs hU hev
+        simp only [h1, h2]
+      | op o p l r1 =>
+        obtain ⟨es', ms', lhs', vl, a, r2, h1, h2, h3, h4, h5⟩ :=
+          gl_reduce_op_bwd z base hlex hst lhs v e r0 v' hlhs hU hev
+        have hp := lexOp_op hlex
+        have hlen := gl_prim_len h4
+        obtain ⟨va, hva⟩ := gl_unwind_sub (A := A) h5 v' hev
+        simp only [h1]
+        rw [ihV _ r1 a r2 va (by omega) h4 hva]
+        simp only
+        have := ihL _ _ z base a va r2 e r0 v' (by omega) (StackEval.cons hp.1 hp.2.1 h3 h2) hva h5 hev
+        simpa using this
+
 end
 
 end Pc.Calc
